@@ -158,6 +158,30 @@ pub fn destruct<H: BuildHasher>(
 					)?;
 				}
 			}
+
+			if let Some(jrsonnet_ir::DestructRest::Keep(v)) = rest {
+				let named: Vec<IStr> = fields.iter().map(|f| f.0.clone()).collect();
+				let full = full.clone();
+				destruct(
+					&Destruct::Full(v.clone()),
+					Thunk!(move || {
+						let full = full.evaluate()?;
+						let mut out = crate::ObjValueBuilder::new();
+						for name in full.fields(
+							#[cfg(feature = "exp-preserve-order")]
+							false,
+						) {
+							if !named.contains(&name) {
+								let value = full.get_lazy_or_bail(name.clone());
+								out.field(name).thunk(value);
+							}
+						}
+						Ok(Val::Obj(out.build()))
+					}),
+					fctx.clone(),
+					new_bindings,
+				)?;
+			}
 		}
 	}
 	Ok(())
